@@ -268,6 +268,9 @@ func Generate(profile string, seed uint64, tier string) (*Scenario, error) {
 		for k := g.Range(0, 2); k > 0 && len(sc.Ops) > 0; k-- {
 			at := g.Intn(len(sc.Ops)) + 1
 			op := Op{K: "setPublicNamespaces", DS: g.Pick(sc.Datasets), A: [][]any{{ExE, ExS}, {ExE}, {}, {}}[g.Intn(4)]}
+			if g.P(0.3) {
+				op.M = map[string]any{"viaTxn": true}
+			}
 			sc.Ops = append(sc.Ops[:at:at], append([]Op{op}, sc.Ops[at:]...)...)
 		}
 		// settings on (re-)created datasets
